@@ -33,6 +33,7 @@ import hashlib
 import itertools
 import os
 import re
+import typing
 
 import urllib3
 import urllib3.filepost as _fp
@@ -109,8 +110,11 @@ def t3(name, fn, val, ct):
     return {"k": "t3", "name": name, "fn": fn, "val": val, "ct": ct}
 
 
-def rf(name, val, fn=None, hdr=None, mm=None):
-    return {"k": "rf", "name": name, "fn": fn, "val": val, "hdr": hdr, "mm": mm}
+def rf(name, val, fn=None, hdr=None, mm=None, mm_first=None):
+    d = {"k": "rf", "name": name, "fn": fn, "val": val, "hdr": hdr, "mm": mm}
+    if mm_first is not None:
+        d["mm_first"] = mm_first  # the field is described once, then described again: the later call overrides all three
+    return d
 
 
 MM0 = {"cd": None, "ct": None, "cl": None}
@@ -137,6 +141,9 @@ def real_field(spec, shared=None):
         hdr = shared.setdefault(tuple(sorted(hdr.items())), hdr)
     f = RequestField(spec["name"], v, filename=spec.get("fn"), headers=hdr)
     mm = spec.get("mm")
+    if spec.get("mm_first") is not None:
+        m1 = spec["mm_first"]
+        f.make_multipart(content_disposition=m1["cd"], content_type=m1["ct"], content_location=m1["cl"])
     if mm is not None:
         f.make_multipart(content_disposition=mm["cd"], content_type=mm["ct"], content_location=mm["cl"])
     return f
@@ -145,13 +152,16 @@ def real_field(spec, shared=None):
 def real_fields(case):
     specs = case["fields"]
     cont = case["container"]
-    if cont == "dict":
+    if cont in ("dict", "mappingproxy"):
         d = {}
         for s in specs:
             name, value = real_field(s)
             d[name] = value
         if len(d) != len(specs):
             raise HarnessError("dict container with duplicate names")
+        if cont == "mappingproxy":
+            import types
+            return types.MappingProxyType(d)  # a Mapping that is not a dict: same meaning as the dict it wraps
         return d
     shared = {} if case.get("share_hdr") else None
     lst = [real_field(s, shared) for s in specs]
@@ -507,7 +517,7 @@ def produce(case):
                 extra["caller_dicts"] = [(dict(k), dict(v)) for k, v in sh.items() if dict(k) != dict(v)]
             # encoding is a pure function of the fields: the SAME field objects (RequestField instances included)
             # encoded once more with the same boundary must give the same bytes
-            if isinstance(ctype, str) and "boundary=" in ctype and isinstance(fields, (list, tuple, dict)):
+            if isinstance(ctype, str) and "boundary=" in ctype and isinstance(fields, (list, tuple, dict, typing.Mapping)):
                 b2 = ctype.split("boundary=", 1)[1]
                 try:
                     body2, _ = urllib3.encode_multipart_formdata(fields, boundary=b2)
@@ -702,7 +712,9 @@ def all_shapes(n, f, v):
     """every field shape of the design for one (name, filename|None, value)"""
     out = [t1(n, v), t2(n, f, v), t3(n, f, v, "text/plain"), t3(n, f, v, None),
            rf(n, v, fn=f, mm=MM0), rf(n, v, fn=f, hdr=H_RICH, mm=MM_FULL), rf(n, v, fn=f, hdr=H_PRESET, mm=MM_CT),
-           rf(n, v, fn=f), rf(n, v, fn=f, hdr=H_X), rf(n, v, fn=f, hdr=H_PRESET)]
+           rf(n, v, fn=f), rf(n, v, fn=f, hdr=H_X), rf(n, v, fn=f, hdr=H_PRESET),
+           # preset / earlier Content-Type and Content-Location, then make_multipart() with its defaults: both are reset
+           rf(n, v, fn=f, hdr=H_PRESET, mm=MM0), rf(n, v, fn=f, mm=MM0, mm_first=MM_FULL), rf(n, v, fn=f, mm=MM_CT, mm_first=MM_FULL)]
     return out if f is None else out[1:]  # t1 has no filename slot
 
 
@@ -832,6 +844,7 @@ def fam_f4(firsts, acc, local):
                 run_case(dict(_one(specs, container="list"), share_hdr=True), acc, local)
             if dict_ok(specs):
                 run_case(_one(specs, container="dict", boundary=None), acc, local)
+                run_case(_one(specs, container="mappingproxy"), acc, local)
 
 
 def fam_f5(tuples, acc, local):
